@@ -36,7 +36,9 @@ Val(c, i)  == IF i = 1 THEN c.ret ELSE c.params[i - 1]      \* value 1 = return,
 NVals(c)   == Len(c.params) + 1
 IsRet(i)   == i = 1
 HasArray(a) == a.array \/ a.alen > 0 \/ a.afixed >= 0 \/ a.azt # ""
-ToSet(s)   == {s[j] : j \in DOMAIN s}
+SeqSet(s)   == {s[j] : j \in DOMAIN s}
+\* TLC keeps [i \in S |-> e] as a closure that re-evaluates e on every application: force a tuple
+Eager(f, n) == SubSeq(f, 1, n)
 
 BasicKinds     == {"int", "bool", "double"}
 EnumKinds      == {"enumT", "flagsT"}
@@ -134,7 +136,7 @@ InitNode(v, isRet) ==
       nullable |-> FALSE, notNullable |-> FALSE, optional |-> FALSE, skip |-> FALSE,
       scope |-> "", closure |-> 0, destroy |-> 0, ty |-> ty, attrs |-> "", warned |-> {}]
 
-InitNodes(c) == [i \in 1..NVals(c) |-> InitNode(Val(c, i), IsRet(i))]
+InitNodes(c) == Eager([i \in 1..NVals(c) |-> InitNode(Val(c, i), IsRet(i))], NVals(c))
 
 IsPointerType(n, isRet) ==        \* _is_pointer_type
   \/ (~isRet /\ n.dir \in {"out", "inout"})
@@ -147,7 +149,8 @@ Warn(n, w) == [n EXCEPT !.warned = @ \cup {w}]
 TypeStage(n, a) ==
   IF a.type = "" THEN n
   ELSE LET t  == SpellType(a.type)
-           t2 == [t EXCEPT !.stars = n.ty.stars, !.const = n.ty.const]     \* _resolve_toplevel keeps ctype / is_const
+           t2 == [t EXCEPT !.stars = n.ty.stars,                           \* _resolve_toplevel keeps the ctype; is_const is
+                           !.const = (n.ty.const /\ t.elems = <<>>)]       \* copied to the base type, lost when it takes arguments
            n2 == [n EXCEPT !.ty = t2]
        IN IF t.resolved THEN n2 ELSE Warn(n2, "unknown-type")
 
@@ -179,7 +182,7 @@ TransferStage(n, a, isRet) ==
          IF ~IsPointerType(n, isRet) THEN Warn(n, "transfer") ELSE [n EXCEPT !.transfer = a.transfer]
 
 \* ---- (array ...) / (element-type ...) -------------------------------------------------------
-ElemNames(et) == [j \in DOMAIN et |-> SpellName(et[j])]
+ElemNames(et) == Eager([j \in DOMAIN et |-> SpellName(et[j])], Len(et))
 ElemWarn(n, et) == IF \E j \in DOMAIN et : ~SpellResolved(et[j]) THEN Warn(n, "unknown-type") ELSE n
 ElemBasicSmall(name) == name \in {"guint8", "gint", "gboolean", "gdouble", "gchar"}      \* BASIC_GIR_TYPES \ POINTER_TYPES
 
@@ -322,8 +325,8 @@ ClosureNullable(c, nodes, k) ==
        ELSE ClosureNullable(c, nodes, k + 1)
 
 Pass3(c, nodes) ==
-  LET s1 == [i \in 1..NVals(c) |-> IF i > 1 /\ IsWellKnownCb(nodes[i])
-                                     THEN [nodes[i] EXCEPT !.scope = "async", !.transfer = "none"] ELSE nodes[i]]
+  LET s1 == Eager([i \in 1..NVals(c) |-> IF i > 1 /\ IsWellKnownCb(nodes[i])
+                                           THEN [nodes[i] EXCEPT !.scope = "async", !.transfer = "none"] ELSE nodes[i]], NVals(c))
   IN ClosureNullable(c, Pair(c, s1, 1, 0), 1)
 
 Final(c) == Pass3(c, Annotated(c))
@@ -359,8 +362,8 @@ Write(c, nodes, i) ==
       elems |-> ty.elems,
       attrs |-> IF n.attrs = "kv" THEN {<<"c01.key", "val">>, <<"c01.other", "x">>} ELSE {}]
 
-ImplOut(c)    == LET f == Final(c) IN [i \in 1..NVals(c) |-> Write(c, f, i)]
-ImplWarned(c) == LET f == Final(c) IN [i \in 1..NVals(c) |-> f[i].warned]
+OutOf(c, f)   == Eager([i \in 1..NVals(c) |-> Write(c, f, i)], NVals(c))
+ImplOut(c)    == OutOf(c, Final(c))
 
 \* the same case with one annotation group of value i removed
 Without(c, i, g) ==
@@ -377,7 +380,7 @@ Without(c, i, g) ==
   IN IF i = 1 THEN [c EXCEPT !.ret.ann = b] ELSE [c EXCEPT !.params[i - 1].ann = b]
 
 ImplWo(c, out) ==
-  [i \in 1..NVals(c) |->
+  Eager([i \in 1..NVals(c) |->
      LET a == Val(c, i).ann
          W(g) == ImplOut(Without(c, i, g))[i]
          wt == IF a.transfer = "" THEN out[i] ELSE W("transfer")
@@ -391,13 +394,14 @@ ImplWo(c, out) ==
      IN [transfer |-> wt.transfer, nullable |-> wn.nullable, optional |-> wp.optional,
          anNullable |-> wa.nullable, anOptional |-> wa.optional,
          scope |-> ws.scope, closure |-> wc.closure, destroy |-> wd.destroy,
-         etElems |-> we.elems, etTname |-> we.tname, etTkind |-> we.tkind]]
+         etElems |-> we.elems, etTname |-> we.tname, etTkind |-> we.tkind]], NVals(c))
 
 \* the observation record the property layer judges; for the model it is what Impl predicts
 ImplObs(c) ==
-  LET out == ImplOut(c)
-  IN [case |-> c, out |-> out, warned |-> ImplWarned(c), wo |-> ImplWo(c, out),
-      retBare |-> ImplOut(Without(c, 1, "all"))[1]]
+  LET f   == Final(c)
+      out == OutOf(c, f)
+  IN [case |-> c, out |-> out, warned |-> Eager([i \in 1..NVals(c) |-> f[i].warned], NVals(c)), wo |-> ImplWo(c, out),
+      retBare |-> IF c.ret.ck = "void" /\ c.ret.ptr = 0 /\ c.ret.ann # EmptyAnn THEN ImplOut(Without(c, 1, "all"))[1] ELSE out[1]]
 
 (***************************************************************************)
 (* PART 3 -- property layer (observables only)                             *)
@@ -432,7 +436,10 @@ V(r, i)  == Val(r.case, i)
 W(r, i)  == r.warned[i]
 Spoken(r, i) == O(r, i).present /\ ~(IsRet(i) /\ V(r, i).ck = "void" /\ V(r, i).ptr = 0)
 
-\* ---- ownership transfer ------------------------------------------------------------------------
+\* Every clause is  Ante(name) => Cons(name):  the antecedent says when the statement speaks about value i
+\* (it mentions the case only, plus "the value was emitted"), the consequent constrains observables.
+
+\* ---- ownership transfer (floating meaning none) -----------------------------------------------------
 TransferJudged(r, i) == /\ Spoken(r, i) /\ A(r, i).transfer # "" /\ A(r, i).type = ""
                         /\ V(r, i).ck \notin CallbackKinds /\ V(r, i).ck \notin {"unknownT", "void"}
                         /\ ~IsLenTarget(r.case, i)
@@ -448,77 +455,85 @@ TransferInvalid(r, i) ==
                                                     \/ (v.ck = "char" /\ v.ptr <= 1))
     [] OTHER                    -> PlainValue(v) /\ (IsRet(i) \/ DeclDir(v) = "in")
 DocTransfer(t) == IF t = "floating" THEN "none" ELSE t
-C_Transfer(r, i)    == (TransferJudged(r, i) /\ TransferValid(r, i)) => O(r, i).transfer = DocTransfer(A(r, i).transfer)
-C_TransferBad(r, i) == (TransferJudged(r, i) /\ TransferInvalid(r, i)) =>
-                          ("transfer" \in W(r, i) /\ O(r, i).transfer = r.wo[i].transfer)
+A_Transfer(r, i)    == TransferJudged(r, i) /\ TransferValid(r, i)
+K_Transfer(r, i)    == O(r, i).transfer = DocTransfer(A(r, i).transfer)
+A_TransferBad(r, i) == TransferJudged(r, i) /\ TransferInvalid(r, i)
+K_TransferBad(r, i) == "transfer" \in W(r, i) /\ O(r, i).transfer = r.wo[i].transfer
 
-\* ---- direction and caller-allocation --------------------------------------------------------
-C_Direction(r, i) == (Spoken(r, i) /\ IsParam(i) /\ A(r, i).dir # "" /\ ~IsLenTarget(r.case, i)) =>
-                        O(r, i).direction = DeclDir(V(r, i))
-C_CallerAllocates(r, i) ==
-  LET v == V(r, i) a == A(r, i) o == O(r, i) IN
-  (Spoken(r, i) /\ IsParam(i) /\ ~IsLenTarget(r.case, i) /\ a.type = "" /\ ~HasArray(a)) =>
-     /\ a.dir = "outcaller" => o.callerAllocates = "1"
-     /\ a.dir = "outcallee" => o.callerAllocates = "0"
-     /\ (a.dir = "out" /\ v.ck \in RecordKinds /\ v.ptr = 1) => o.callerAllocates = "1"     \* documented inference
-     /\ (a.dir = "out" /\ v.ck \in RecordKinds /\ v.ptr = 2) => o.callerAllocates = "0"
+\* ---- direction and caller-allocation ------------------------------------------------------------------
+A_Direction(r, i) == Spoken(r, i) /\ IsParam(i) /\ A(r, i).dir # "" /\ ~IsLenTarget(r.case, i)
+K_Direction(r, i) == O(r, i).direction = DeclDir(V(r, i))
+AllocJudged(r, i) == Spoken(r, i) /\ IsParam(i) /\ ~IsLenTarget(r.case, i) /\ A(r, i).type = "" /\ ~HasArray(A(r, i))
+A_CallerAllocates(r, i) == AllocJudged(r, i) /\ A(r, i).dir \in {"outcaller", "outcallee"}
+K_CallerAllocates(r, i) == O(r, i).callerAllocates = (IF A(r, i).dir = "outcaller" THEN "1" ELSE "0")
+\* (out) "automatically determines allocation": the documented rule is single vs double indirection on a structure
+A_CallerAllocatesInferred(r, i) == AllocJudged(r, i) /\ A(r, i).dir = "out" /\ V(r, i).ck \in RecordKinds /\ V(r, i).ptr \in {1, 2}
+K_CallerAllocatesInferred(r, i) == O(r, i).callerAllocates = (IF V(r, i).ptr = 1 THEN "1" ELSE "0")
 \* a direction / scope / closure / destroy annotation on a return value is not valid there
-C_ReturnOnlyParam(r, i) ==
+A_ReturnOnlyParam(r, i) == LET a == A(r, i) IN Spoken(r, i) /\ IsRet(i) /\ (a.dir # "" \/ a.scope # "" \/ a.closure >= 0 \/ a.destroy > 0)
+K_ReturnOnlyParam(r, i) ==
   LET a == A(r, i) o == O(r, i) IN
-  (Spoken(r, i) /\ IsRet(i)) =>
      /\ a.dir # "" => AnnDirOf(a) \in W(r, i)
      /\ a.scope # "" => ("scope" \in W(r, i) /\ o.scope = "")
      /\ a.closure >= 0 => ("closure" \in W(r, i) /\ o.closure = -1)
      /\ a.destroy > 0 => ("destroy" \in W(r, i) /\ o.destroy = -1)
 
-\* ---- nullable / optional / allow-none / not ----------------------------------------------------
+\* ---- nullable / optional / allow-none, 'not' overriding ---------------------------------------------------
 DirKnown(r, i) == ~IsLenTarget(r.case, i)
 PointerSite(r, i) == CPointer(V(r, i)) \/ (IsParam(i) /\ DeclDir(V(r, i)) \in {"out", "inout"} /\ DirKnown(r, i))
 NonPointerSite(r, i) == NonPointer(V(r, i)) /\ (IsRet(i) \/ (DeclDir(V(r, i)) = "in" /\ DirKnown(r, i)))
-C_Nullable(r, i)    == (Spoken(r, i) /\ A(r, i).nullable /\ A(r, i).type = "" /\ PointerSite(r, i) /\ A(r, i).notn # "nullable")
-                          => O(r, i).nullable
-C_NullableBad(r, i) == (Spoken(r, i) /\ A(r, i).nullable /\ A(r, i).type = "" /\ ~HasArray(A(r, i)) /\ NonPointerSite(r, i))
-                          => ("nullable" \in W(r, i) /\ O(r, i).nullable = r.wo[i].nullable)
-C_NotNullable(r, i) == (Spoken(r, i) /\ A(r, i).notn = "nullable") => ~O(r, i).nullable
-C_Optional(r, i)    == (Spoken(r, i) /\ A(r, i).optional /\ IsParam(i) /\ DeclDir(V(r, i)) \in {"out", "inout"} /\ DirKnown(r, i)
-                        /\ A(r, i).notn # "optional") => O(r, i).optional
-C_OptionalBad(r, i) == (Spoken(r, i) /\ A(r, i).optional /\ (IsRet(i) \/ (DeclDir(V(r, i)) = "in" /\ DirKnown(r, i))))
-                          => ("optional" \in W(r, i) /\ O(r, i).optional = r.wo[i].optional)
-C_NotOptional(r, i) == (Spoken(r, i) /\ A(r, i).notn = "optional") => ~O(r, i).optional
-C_AllowNone(r, i) ==
-  LET v == V(r, i) a == A(r, i) o == O(r, i) IN
-  (Spoken(r, i) /\ a.allownone /\ a.type = "" /\ DirKnown(r, i)) =>
-     /\ (IsParam(i) /\ DeclDir(v) = "out" /\ a.notn # "optional") => o.optional                 \* on out parameters it means (optional)
-     /\ ((IsRet(i) \/ DeclDir(v) = "in") /\ CPointer(v) /\ a.notn # "nullable") => o.nullable    \* elsewhere (nullable)
-     /\ ((IsRet(i) \/ DeclDir(v) = "in") /\ NonPointer(v) /\ ~HasArray(a)) =>
-           ("allow-none" \in W(r, i) /\ o.nullable = r.wo[i].anNullable /\ o.optional = r.wo[i].anOptional)
+InOrRet(r, i) == IsRet(i) \/ (DeclDir(V(r, i)) = "in" /\ DirKnown(r, i))
+A_Nullable(r, i)    == Spoken(r, i) /\ A(r, i).nullable /\ A(r, i).type = "" /\ PointerSite(r, i) /\ A(r, i).notn # "nullable"
+K_Nullable(r, i)    == O(r, i).nullable
+A_NullableBad(r, i) == Spoken(r, i) /\ A(r, i).nullable /\ A(r, i).type = "" /\ ~HasArray(A(r, i)) /\ NonPointerSite(r, i)
+K_NullableBad(r, i) == "nullable" \in W(r, i) /\ O(r, i).nullable = r.wo[i].nullable
+A_NotNullable(r, i) == Spoken(r, i) /\ A(r, i).notn = "nullable"
+K_NotNullable(r, i) == ~O(r, i).nullable
+A_Optional(r, i)    == Spoken(r, i) /\ A(r, i).optional /\ IsParam(i) /\ DeclDir(V(r, i)) \in {"out", "inout"} /\ DirKnown(r, i)
+                       /\ A(r, i).notn # "optional"
+K_Optional(r, i)    == O(r, i).optional
+A_OptionalBad(r, i) == Spoken(r, i) /\ A(r, i).optional /\ InOrRet(r, i)
+K_OptionalBad(r, i) == "optional" \in W(r, i) /\ O(r, i).optional = r.wo[i].optional
+A_NotOptional(r, i) == Spoken(r, i) /\ A(r, i).notn = "optional"
+K_NotOptional(r, i) == ~O(r, i).optional
+\* (allow-none): "replaced by (nullable) and (optional)": optional on out parameters, nullable elsewhere
+AllowNoneJudged(r, i) == Spoken(r, i) /\ A(r, i).allownone /\ A(r, i).type = "" /\ DirKnown(r, i)
+A_AllowNoneOut(r, i)  == AllowNoneJudged(r, i) /\ IsParam(i) /\ DeclDir(V(r, i)) = "out" /\ A(r, i).notn # "optional"
+K_AllowNoneOut(r, i)  == O(r, i).optional
+A_AllowNonePointer(r, i) == AllowNoneJudged(r, i) /\ InOrRet(r, i) /\ CPointer(V(r, i)) /\ A(r, i).notn # "nullable"
+K_AllowNonePointer(r, i) == O(r, i).nullable
+A_AllowNoneBad(r, i)  == AllowNoneJudged(r, i) /\ InOrRet(r, i) /\ NonPointer(V(r, i)) /\ ~HasArray(A(r, i))
+K_AllowNoneBad(r, i)  == "allow-none" \in W(r, i) /\ O(r, i).nullable = r.wo[i].anNullable /\ O(r, i).optional = r.wo[i].anOptional
 
-\* ---- skip, attributes -------------------------------------------------------------------------
-C_Skip(r, i)  == (Spoken(r, i) /\ A(r, i).skip) => O(r, i).skip
-C_Attrs(r, i) == (Spoken(r, i) /\ A(r, i).attrs = "kv") => {<<"c01.key", "val">>, <<"c01.other", "x">>} \subseteq O(r, i).attrs
+\* ---- skip, attributes -----------------------------------------------------------------------------------
+A_Skip(r, i)  == Spoken(r, i) /\ A(r, i).skip
+K_Skip(r, i)  == O(r, i).skip
+A_Attrs(r, i) == Spoken(r, i) /\ A(r, i).attrs = "kv"
+K_Attrs(r, i) == {<<"c01.key", "val">>, <<"c01.other", "x">>} \subseteq O(r, i).attrs
 
-\* ---- arrays -----------------------------------------------------------------------------------
+\* ---- arrays ---------------------------------------------------------------------------------------------
 \* GIR: a missing zero-terminated attribute means "zero-terminated unless a length or fixed size is given"
 ZeroTerminated(o) == IF o.azt = "" THEN (o.alen = -1 /\ o.afixed = -1) ELSE o.azt = "1"
-C_Array(r, i) ==
+A_Array(r, i) == Spoken(r, i) /\ HasArray(A(r, i))
+K_Array(r, i) ==
   LET a == A(r, i) o == O(r, i) IN
-  (Spoken(r, i) /\ HasArray(a)) =>
      /\ o.tkind = "array"
      /\ a.afixed >= 0 => o.afixed = a.afixed
      /\ a.azt \in {"1", "bare"} => ZeroTerminated(o)
      /\ a.azt = "0" => ~ZeroTerminated(o)
-C_ArrayLengthIndex(r, i) == (Spoken(r, i) /\ A(r, i).alen > 0) => O(r, i).alen = EmittedIndex(r.case, A(r, i).alen)
+A_ArrayLengthIndex(r, i) == Spoken(r, i) /\ A(r, i).alen > 0
+K_ArrayLengthIndex(r, i) == O(r, i).alen = EmittedIndex(r.case, A(r, i).alen)
 \* "An array length annotation also makes the named length parameter follow the array's direction"
 SourceDir(r, j) == IF IsRet(j) THEN "out" ELSE O(r, j).direction
-C_ArrayLengthDirection(r, i) ==
+A_ArrayLengthDirection(r, i) ==
   LET a == A(r, i) t == a.alen + 1 IN
-  (Spoken(r, i) /\ HasArray(a) /\ a.alen > 0 /\ O(r, t).present /\
-   (IsRet(i) => A(r, i).dir = "") /\                      \* a direction written on a return value is itself invalid
-   (\A j \in LenSources(r.case, a.alen) : SourceDir(r, j) = SourceDir(r, i)) /\
-   (A(r, t).dir = "" \/ DeclDir(V(r, t)) = SourceDir(r, i)))
-     => O(r, t).direction = SourceDir(r, i)
+   /\ Spoken(r, i) /\ HasArray(a) /\ a.alen > 0 /\ O(r, t).present
+   /\ (IsRet(i) => A(r, i).dir = "")                      \* a direction written on a return value is itself invalid
+   /\ (\A j \in LenSources(r.case, a.alen) : SourceDir(r, j) = SourceDir(r, i))
+   /\ (A(r, t).dir = "" \/ DeclDir(V(r, t)) = SourceDir(r, i))
+K_ArrayLengthDirection(r, i) == O(r, A(r, i).alen + 1).direction = SourceDir(r, i)
 
-\* ---- element-type and type ----------------------------------------------------------------------
+\* ---- element-type and type ----------------------------------------------------------------------------------
 ListLike(r, i) == LET v == V(r, i) IN HasArray(A(r, i)) \/ (v.ck \in (ListKinds \cup GArrayKinds) /\ v.ptr >= 1)
                                        \/ (IsRet(i) /\ v.ck = "char" /\ v.ptr = 2)
 MapLike(r, i)  == V(r, i).ck = "GHashTable" /\ V(r, i).ptr >= 1 /\ ~HasArray(A(r, i))
@@ -530,104 +545,133 @@ ElemDiscouraged(r, i) == LET v == V(r, i) e == A(r, i).et[1] IN
                            \/ (v.ck = "GPtrArray" /\ e \in {"guint8", "gint", "int"})
                            \/ (v.ck = "GByteArray" /\ e # "guint8")
 ETJudged(r, i) == Spoken(r, i) /\ Len(A(r, i).et) > 0 /\ A(r, i).type = "" /\ (\A j \in DOMAIN A(r, i).et : SpellSimple(A(r, i).et[j]))
-C_ElementType(r, i) ==
-  LET a == A(r, i) IN
-  (ETJudged(r, i) /\ ((ListLike(r, i) /\ Len(a.et) = 1 /\ ~ElemDiscouraged(r, i)) \/ (MapLike(r, i) /\ Len(a.et) = 2)))
-     => O(r, i).elems = ElemNames(a.et)
-C_ElementTypeBad(r, i) ==
-  LET a == A(r, i) IN
-  (ETJudged(r, i) /\ (NotAContainer(r, i) \/ (~HasArray(a) /\ ListLike(r, i) /\ Len(a.et) # 1) \/ (MapLike(r, i) /\ Len(a.et) # 2)))
-     => ("element-type" \in W(r, i) /\ O(r, i).elems = r.wo[i].etElems /\ O(r, i).tname = r.wo[i].etTname /\ O(r, i).tkind = r.wo[i].etTkind)
-C_Type(r, i) ==
+A_ElementType(r, i) == ETJudged(r, i) /\ ((ListLike(r, i) /\ Len(A(r, i).et) = 1 /\ ~ElemDiscouraged(r, i)) \/ (MapLike(r, i) /\ Len(A(r, i).et) = 2))
+K_ElementType(r, i) == O(r, i).elems = ElemNames(A(r, i).et)
+A_ElementTypeBad(r, i) == ETJudged(r, i) /\ (NotAContainer(r, i) \/ (~HasArray(A(r, i)) /\ ListLike(r, i) /\ Len(A(r, i).et) # 1)
+                                             \/ (MapLike(r, i) /\ Len(A(r, i).et) # 2))
+K_ElementTypeBad(r, i) == "element-type" \in W(r, i) /\ O(r, i).elems = r.wo[i].etElems /\ O(r, i).tname = r.wo[i].etTname
+                          /\ O(r, i).tkind = r.wo[i].etTkind
+A_Type(r, i) == Spoken(r, i) /\ A(r, i).type # "" /\ SpellResolved(A(r, i).type)
+K_Type(r, i) ==
   LET a == A(r, i) o == O(r, i) t == SpellType(a.type) IN
-  (Spoken(r, i) /\ a.type # "" /\ t.resolved) =>
      IF HasArray(a) THEN (a.et = <<>> /\ t.elems = <<>>) => o.elems = <<t.name>>
      ELSE o.tkind = "type" /\ o.tname = t.name /\ (a.et = <<>> /\ t.elems # <<>> => o.elems = t.elems)
 
-\* ---- scope / closure / destroy -------------------------------------------------------------------
+\* ---- scope / closure / destroy ---------------------------------------------------------------------------------
 PlainCallbackParam(r, i) == IsParam(i) /\ V(r, i).ck = "callbackT" /\ V(r, i).ptr = 0 /\ ~HasArray(A(r, i))
 AnyCallbackParam(r, i)   == IsParam(i) /\ V(r, i).ck \in CallbackKinds /\ V(r, i).ptr = 0 /\ ~HasArray(A(r, i))
 NotACallback(r, i) == IsParam(i) /\ V(r, i).ck \notin (CallbackKinds \cup {"unknownT"})
 GPointerParam(c, k) == c.params[k].ck \in {"gpointer"} /\ c.params[k].ptr = 0 /\ c.params[k].ann.type = "" /\ ~HasArray(c.params[k].ann)
 DefinitelyNotGPointer(c, k) == c.params[k].ck \notin {"gpointer", "void", "unknownT"} /\ c.params[k].ann.type = ""
+OnCallable(r, i) == Spoken(r, i) /\ Callish(r.case) /\ A(r, i).type = ""
 
 \* a scope is judged on plain callback parameters that are not tied to a destroy notifier
 \* ("notified: valid until the GDestroyNotify argument is called" -- a notifier implies that scope)
-C_Scope(r, i) == (Spoken(r, i) /\ Callish(r.case) /\ A(r, i).scope # "" /\ A(r, i).type = "" /\ PlainCallbackParam(r, i)
-                  /\ A(r, i).destroy = 0 /\ ConvDestroy(r.case, i) = {}
-                  /\ (\A j \in 2..NVals(r.case) : A(r, j).destroy # i - 1)) => O(r, i).scope = A(r, i).scope
-C_ScopeBad(r, i) == (Spoken(r, i) /\ Callish(r.case) /\ A(r, i).scope # "" /\ A(r, i).type = "" /\ NotACallback(r, i))
-                      => ("scope" \in W(r, i) /\ O(r, i).scope = r.wo[i].scope)
-C_Closure(r, i) ==
-  LET a == A(r, i) c == r.case IN
-  /\ (Spoken(r, i) /\ Callish(c) /\ a.closure > 0 /\ a.type = "" /\ AnyCallbackParam(r, i) /\ GPointerParam(c, a.closure))
-        => O(r, i).closure = EmittedIndex(c, a.closure)
-  /\ (Spoken(r, i) /\ c.kind = "callback" /\ a.closure = 0 /\ IsParam(i) /\ GPointerParam(c, i - 1))
-        => O(r, i).closure = EmittedIndex(c, i - 1)           \* (closure) on the user-data parameter of a callback type
-C_ClosureBad(r, i) ==
-  LET a == A(r, i) c == r.case IN
-  /\ (Spoken(r, i) /\ Callish(c) /\ a.closure >= 0 /\ a.type = "" /\ NotACallback(r, i))
-        => ("closure" \in W(r, i) /\ O(r, i).closure = r.wo[i].closure)
-  /\ (Spoken(r, i) /\ c.kind = "callback" /\ IsParam(i) /\ a.closure > 0)
-        => ("closure" \in W(r, i) /\ O(r, i).closure = r.wo[i].closure)
-  \* the user-data parameter named (or marked) is not a gpointer
-  /\ (Spoken(r, i) /\ Callish(c) /\ a.closure > 0 /\ a.type = "" /\ AnyCallbackParam(r, i) /\ DefinitelyNotGPointer(c, a.closure))
-        => ("closure" \in W(r, i) /\ O(r, i).closure = r.wo[i].closure)
-  /\ (Spoken(r, i) /\ c.kind = "callback" /\ IsParam(i) /\ a.closure = 0 /\ DefinitelyNotGPointer(c, i - 1) /\ ~HasArray(a))
-        => ("closure" \in W(r, i) /\ O(r, i).closure = r.wo[i].closure)
-C_Destroy(r, i) == (Spoken(r, i) /\ Callish(r.case) /\ A(r, i).destroy > 0 /\ A(r, i).type = "" /\ PlainCallbackParam(r, i))
-                      => O(r, i).destroy = EmittedIndex(r.case, A(r, i).destroy)
-C_DestroyBad(r, i) == (Spoken(r, i) /\ Callish(r.case) /\ A(r, i).destroy > 0 /\ A(r, i).type = "" /\ NotACallback(r, i))
-                      => ("destroy" \in W(r, i) /\ O(r, i).destroy = r.wo[i].destroy)
+A_Scope(r, i) == /\ OnCallable(r, i) /\ A(r, i).scope # "" /\ PlainCallbackParam(r, i)
+                 /\ A(r, i).destroy = 0 /\ ConvDestroy(r.case, i) = {}
+                 /\ (\A j \in 2..NVals(r.case) : A(r, j).destroy # i - 1)
+K_Scope(r, i) == O(r, i).scope = A(r, i).scope
+A_ScopeBad(r, i) == OnCallable(r, i) /\ A(r, i).scope # "" /\ NotACallback(r, i)
+K_ScopeBad(r, i) == "scope" \in W(r, i) /\ O(r, i).scope = r.wo[i].scope
+\* (closure PARAM) on the callback parameter of a function / method
+A_Closure(r, i) == OnCallable(r, i) /\ A(r, i).closure > 0 /\ AnyCallbackParam(r, i) /\ GPointerParam(r.case, A(r, i).closure)
+K_Closure(r, i) == O(r, i).closure = EmittedIndex(r.case, A(r, i).closure)
+\* (closure) on the user-data parameter of a callback type: "represented by pointing at itself"
+A_ClosureUserData(r, i) == Spoken(r, i) /\ r.case.kind = "callback" /\ A(r, i).closure = 0 /\ IsParam(i) /\ GPointerParam(r.case, i - 1)
+K_ClosureUserData(r, i) == O(r, i).closure = EmittedIndex(r.case, i - 1)
+\* not valid at its site: on a non-callback parameter of a function / method, or with an argument inside a callback type
+A_ClosureBad(r, i) == \/ (OnCallable(r, i) /\ A(r, i).closure >= 0 /\ NotACallback(r, i))
+                      \/ (Spoken(r, i) /\ r.case.kind = "callback" /\ IsParam(i) /\ A(r, i).closure > 0)
+K_ClosureBad(r, i) == "closure" \in W(r, i) /\ O(r, i).closure = r.wo[i].closure
+\* the user-data parameter named (or marked) is not a gpointer
+A_ClosureTargetBad(r, i) ==
+   \/ (OnCallable(r, i) /\ A(r, i).closure > 0 /\ AnyCallbackParam(r, i) /\ DefinitelyNotGPointer(r.case, A(r, i).closure))
+   \/ (Spoken(r, i) /\ r.case.kind = "callback" /\ IsParam(i) /\ A(r, i).closure = 0 /\ A(r, i).type = ""
+       /\ DefinitelyNotGPointer(r.case, i - 1) /\ ~HasArray(A(r, i)))
+K_ClosureTargetBad(r, i) == "closure" \in W(r, i) /\ O(r, i).closure = r.wo[i].closure
+A_Destroy(r, i) == OnCallable(r, i) /\ A(r, i).destroy > 0 /\ PlainCallbackParam(r, i)
+K_Destroy(r, i) == O(r, i).destroy = EmittedIndex(r.case, A(r, i).destroy)
+A_DestroyBad(r, i) == OnCallable(r, i) /\ A(r, i).destroy > 0 /\ NotACallback(r, i)
+K_DestroyBad(r, i) == "destroy" \in W(r, i) /\ O(r, i).destroy = r.wo[i].destroy
 
-\* ---- annotations on a void return ------------------------------------------------------------------
-C_ReturnVoid(r, i) == (IsRet(i) /\ O(r, i).present /\ V(r, i).ck = "void" /\ V(r, i).ptr = 0 /\ A(r, i) # EmptyAnn)
-                         => ("return" \in W(r, i) /\ O(r, i) = r.retBare)
+\* ---- annotations on a void return: the whole tag is invalid ----------------------------------------------------
+A_ReturnVoid(r, i) == IsRet(i) /\ O(r, i).present /\ V(r, i).ck = "void" /\ V(r, i).ptr = 0 /\ A(r, i) # EmptyAnn
+K_ReturnVoid(r, i) == "return" \in W(r, i) /\ O(r, i) = r.retBare
 
-ClauseNames == {"Transfer", "TransferBad", "Direction", "CallerAllocates", "ReturnOnlyParam",
-                "Nullable", "NullableBad", "NotNullable", "Optional", "OptionalBad", "NotOptional", "AllowNone",
+ClauseNames == {"Transfer", "TransferBad", "Direction", "CallerAllocates", "CallerAllocatesInferred", "ReturnOnlyParam",
+                "Nullable", "NullableBad", "NotNullable", "Optional", "OptionalBad", "NotOptional",
+                "AllowNoneOut", "AllowNonePointer", "AllowNoneBad",
                 "Skip", "Attrs", "Array", "ArrayLengthIndex", "ArrayLengthDirection",
                 "ElementType", "ElementTypeBad", "Type",
-                "Scope", "ScopeBad", "Closure", "ClosureBad", "Destroy", "DestroyBad", "ReturnVoid"}
+                "Scope", "ScopeBad", "Closure", "ClosureUserData", "ClosureBad", "ClosureTargetBad", "Destroy", "DestroyBad",
+                "ReturnVoid"}
 
-Clause(name, r, i) ==
-  CASE name = "Transfer" -> C_Transfer(r, i)            [] name = "TransferBad" -> C_TransferBad(r, i)
-    [] name = "Direction" -> C_Direction(r, i)          [] name = "CallerAllocates" -> C_CallerAllocates(r, i)
-    [] name = "ReturnOnlyParam" -> C_ReturnOnlyParam(r, i)
-    [] name = "Nullable" -> C_Nullable(r, i)            [] name = "NullableBad" -> C_NullableBad(r, i)
-    [] name = "NotNullable" -> C_NotNullable(r, i)      [] name = "Optional" -> C_Optional(r, i)
-    [] name = "OptionalBad" -> C_OptionalBad(r, i)      [] name = "NotOptional" -> C_NotOptional(r, i)
-    [] name = "AllowNone" -> C_AllowNone(r, i)          [] name = "Skip" -> C_Skip(r, i)
-    [] name = "Attrs" -> C_Attrs(r, i)                  [] name = "Array" -> C_Array(r, i)
-    [] name = "ArrayLengthIndex" -> C_ArrayLengthIndex(r, i)
-    [] name = "ArrayLengthDirection" -> C_ArrayLengthDirection(r, i)
-    [] name = "ElementType" -> C_ElementType(r, i)      [] name = "ElementTypeBad" -> C_ElementTypeBad(r, i)
-    [] name = "Type" -> C_Type(r, i)                    [] name = "Scope" -> C_Scope(r, i)
-    [] name = "ScopeBad" -> C_ScopeBad(r, i)            [] name = "Closure" -> C_Closure(r, i)
-    [] name = "ClosureBad" -> C_ClosureBad(r, i)        [] name = "Destroy" -> C_Destroy(r, i)
-    [] name = "DestroyBad" -> C_DestroyBad(r, i)        [] name = "ReturnVoid" -> C_ReturnVoid(r, i)
+Ante(name, r, i) ==
+  CASE name = "Transfer" -> A_Transfer(r, i)            [] name = "TransferBad" -> A_TransferBad(r, i)
+    [] name = "Direction" -> A_Direction(r, i)          [] name = "CallerAllocates" -> A_CallerAllocates(r, i)
+    [] name = "CallerAllocatesInferred" -> A_CallerAllocatesInferred(r, i)
+    [] name = "ReturnOnlyParam" -> A_ReturnOnlyParam(r, i)
+    [] name = "Nullable" -> A_Nullable(r, i)            [] name = "NullableBad" -> A_NullableBad(r, i)
+    [] name = "NotNullable" -> A_NotNullable(r, i)      [] name = "Optional" -> A_Optional(r, i)
+    [] name = "OptionalBad" -> A_OptionalBad(r, i)      [] name = "NotOptional" -> A_NotOptional(r, i)
+    [] name = "AllowNoneOut" -> A_AllowNoneOut(r, i)    [] name = "AllowNonePointer" -> A_AllowNonePointer(r, i)
+    [] name = "AllowNoneBad" -> A_AllowNoneBad(r, i)    [] name = "Skip" -> A_Skip(r, i)
+    [] name = "Attrs" -> A_Attrs(r, i)                  [] name = "Array" -> A_Array(r, i)
+    [] name = "ArrayLengthIndex" -> A_ArrayLengthIndex(r, i)
+    [] name = "ArrayLengthDirection" -> A_ArrayLengthDirection(r, i)
+    [] name = "ElementType" -> A_ElementType(r, i)      [] name = "ElementTypeBad" -> A_ElementTypeBad(r, i)
+    [] name = "Type" -> A_Type(r, i)                    [] name = "Scope" -> A_Scope(r, i)
+    [] name = "ScopeBad" -> A_ScopeBad(r, i)            [] name = "Closure" -> A_Closure(r, i)
+    [] name = "ClosureUserData" -> A_ClosureUserData(r, i)
+    [] name = "ClosureBad" -> A_ClosureBad(r, i)        [] name = "ClosureTargetBad" -> A_ClosureTargetBad(r, i)
+    [] name = "Destroy" -> A_Destroy(r, i)              [] name = "DestroyBad" -> A_DestroyBad(r, i)
+    [] name = "ReturnVoid" -> A_ReturnVoid(r, i)
 
-\* when does a clause speak (for vacuity counting): the annotation it is about is present on value i
-Speaks(name, r, i) ==
-  LET a == A(r, i) IN
-  CASE name \in {"Transfer", "TransferBad"} -> a.transfer # ""
-    [] name \in {"Direction", "CallerAllocates"} -> a.dir # "" /\ IsParam(i)
-    [] name = "ReturnOnlyParam" -> IsRet(i) /\ (a.dir # "" \/ a.scope # "" \/ a.closure >= 0 \/ a.destroy > 0)
-    [] name \in {"Nullable", "NullableBad"} -> a.nullable
-    [] name = "NotNullable" -> a.notn = "nullable"
-    [] name \in {"Optional", "OptionalBad"} -> a.optional
-    [] name = "NotOptional" -> a.notn = "optional"
-    [] name = "AllowNone" -> a.allownone
-    [] name = "Skip" -> a.skip
-    [] name = "Attrs" -> a.attrs = "kv"
-    [] name = "Array" -> HasArray(a)
-    [] name \in {"ArrayLengthIndex", "ArrayLengthDirection"} -> a.alen > 0
-    [] name \in {"ElementType", "ElementTypeBad"} -> a.et # <<>>
-    [] name = "Type" -> a.type # ""
-    [] name \in {"Scope", "ScopeBad"} -> a.scope # "" /\ IsParam(i)
-    [] name \in {"Closure", "ClosureBad"} -> a.closure >= 0 /\ IsParam(i)
-    [] name \in {"Destroy", "DestroyBad"} -> a.destroy > 0 /\ IsParam(i)
-    [] name = "ReturnVoid" -> IsRet(i) /\ V(r, i).ck = "void" /\ V(r, i).ptr = 0 /\ a # EmptyAnn
+Cons(name, r, i) ==
+  CASE name = "Transfer" -> K_Transfer(r, i)            [] name = "TransferBad" -> K_TransferBad(r, i)
+    [] name = "Direction" -> K_Direction(r, i)          [] name = "CallerAllocates" -> K_CallerAllocates(r, i)
+    [] name = "CallerAllocatesInferred" -> K_CallerAllocatesInferred(r, i)
+    [] name = "ReturnOnlyParam" -> K_ReturnOnlyParam(r, i)
+    [] name = "Nullable" -> K_Nullable(r, i)            [] name = "NullableBad" -> K_NullableBad(r, i)
+    [] name = "NotNullable" -> K_NotNullable(r, i)      [] name = "Optional" -> K_Optional(r, i)
+    [] name = "OptionalBad" -> K_OptionalBad(r, i)      [] name = "NotOptional" -> K_NotOptional(r, i)
+    [] name = "AllowNoneOut" -> K_AllowNoneOut(r, i)    [] name = "AllowNonePointer" -> K_AllowNonePointer(r, i)
+    [] name = "AllowNoneBad" -> K_AllowNoneBad(r, i)    [] name = "Skip" -> K_Skip(r, i)
+    [] name = "Attrs" -> K_Attrs(r, i)                  [] name = "Array" -> K_Array(r, i)
+    [] name = "ArrayLengthIndex" -> K_ArrayLengthIndex(r, i)
+    [] name = "ArrayLengthDirection" -> K_ArrayLengthDirection(r, i)
+    [] name = "ElementType" -> K_ElementType(r, i)      [] name = "ElementTypeBad" -> K_ElementTypeBad(r, i)
+    [] name = "Type" -> K_Type(r, i)                    [] name = "Scope" -> K_Scope(r, i)
+    [] name = "ScopeBad" -> K_ScopeBad(r, i)            [] name = "Closure" -> K_Closure(r, i)
+    [] name = "ClosureUserData" -> K_ClosureUserData(r, i)
+    [] name = "ClosureBad" -> K_ClosureBad(r, i)        [] name = "ClosureTargetBad" -> K_ClosureTargetBad(r, i)
+    [] name = "Destroy" -> K_Destroy(r, i)              [] name = "DestroyBad" -> K_DestroyBad(r, i)
+    [] name = "ReturnVoid" -> K_ReturnVoid(r, i)
+
+Clause(name, r, i) == Ante(name, r, i) => Cons(name, r, i)
+
+\* cheap pre-filter (case only): the clauses that are about an annotation present on the value
+Candidates(a, isRet) ==
+  (IF a.transfer # "" THEN {"Transfer", "TransferBad"} ELSE {})
+  \cup (IF a.dir # "" /\ ~isRet THEN {"Direction", "CallerAllocates", "CallerAllocatesInferred"} ELSE {})
+  \cup (IF isRet THEN {"ReturnOnlyParam", "ReturnVoid"} ELSE {})
+  \cup (IF a.nullable THEN {"Nullable", "NullableBad"} ELSE {})
+  \cup (IF a.notn = "nullable" THEN {"NotNullable"} ELSE IF a.notn = "optional" THEN {"NotOptional"} ELSE {})
+  \cup (IF a.optional THEN {"Optional", "OptionalBad"} ELSE {})
+  \cup (IF a.allownone THEN {"AllowNoneOut", "AllowNonePointer", "AllowNoneBad"} ELSE {})
+  \cup (IF a.skip THEN {"Skip"} ELSE {})
+  \cup (IF a.attrs = "kv" THEN {"Attrs"} ELSE {})
+  \cup (IF HasArray(a) THEN {"Array"} ELSE {})
+  \cup (IF a.alen > 0 THEN {"ArrayLengthIndex", "ArrayLengthDirection"} ELSE {})
+  \cup (IF a.et # <<>> THEN {"ElementType", "ElementTypeBad"} ELSE {})
+  \cup (IF a.type # "" THEN {"Type"} ELSE {})
+  \cup (IF a.scope # "" /\ ~isRet THEN {"Scope", "ScopeBad"} ELSE {})
+  \cup (IF a.closure >= 0 /\ ~isRet THEN {"Closure", "ClosureUserData", "ClosureBad", "ClosureTargetBad"} ELSE {})
+  \cup (IF a.destroy > 0 /\ ~isRet THEN {"Destroy", "DestroyBad"} ELSE {})
+
+\* the (value, clause) pairs on which the statement speaks, and those on which it is violated
+Speaking(r) == UNION {{<<i, name>> : name \in {n \in Candidates(A(r, i), IsRet(i)) : Ante(n, r, i)}} : i \in 1..NVals(r.case)}
+Failing(r)  == {p \in Speaking(r) : ~Cons(p[2], r, p[1])}
 
 (***************************************************************************)
 (* PART 3b -- deviation classes: input classes on which the scanner is     *)
@@ -640,17 +684,16 @@ Deviation(name, c, i) ==
   LET v == Val(c, i) a == v.ann IN
   CASE \* (not optional) is implemented as (not nullable): it never clears optional and it clears nullable
        name = "NotOptional" /\ (a.optional \/ a.allownone) -> "not-optional-ignored"
-    [] name \in {"Nullable", "AllowNone"} /\ a.notn = "optional" -> "not-optional-clears-nullable"
+    [] name \in {"Nullable", "AllowNonePointer"} /\ a.notn = "optional" -> "not-optional-clears-nullable"
        \* by-value enum / flags are taken for pointers: (nullable) / (allow-none) accepted without a warning
-    [] name \in {"NullableBad", "AllowNone"} /\ v.ck \in EnumKinds /\ v.ptr = 0 -> "nullable-on-enum-value"
+    [] name \in {"NullableBad", "AllowNoneBad"} /\ v.ck \in EnumKinds /\ v.ptr = 0 -> "nullable-on-enum-value"
        \* a pointer to an alias of a basic type is taken for a non-pointer
-    [] name \in {"Nullable", "AllowNone", "Transfer"} /\ v.ck = "aliasT" /\ v.ptr >= 1 -> "alias-pointer-not-a-pointer"
+    [] name \in {"Nullable", "AllowNonePointer", "Transfer"} /\ v.ck = "aliasT" /\ v.ptr >= 1 -> "alias-pointer-not-a-pointer"
        \* the callback/user_data/GDestroyNotify pairing convention overrides an explicit annotation
     [] name = "Closure" /\ Callish(c) /\ a.closure > 0 /\ (ConvClosure(c, i) \ {a.closure}) # {} -> "closure-overridden-by-convention"
     [] name = "Destroy" /\ Callish(c) /\ a.destroy > 0 /\ (ConvDestroy(c, i) \ {a.destroy}) # {} -> "destroy-overridden-by-convention"
        \* closure on something that is not a gpointer is warned about but applied all the same
-    [] name = "ClosureBad" /\ Callish(c) /\ a.closure > 0 /\ v.ck \in CallbackKinds -> "closure-target-not-gpointer"
-    [] name = "ClosureBad" /\ c.kind = "callback" /\ a.closure = 0 -> "closure-target-not-gpointer"
+    [] name = "ClosureTargetBad" -> "closure-target-not-gpointer"
     [] OTHER -> "none"
 
 (***************************************************************************)
@@ -659,7 +702,6 @@ Deviation(name, c, i) ==
 VARIABLES case, phase, bad
 vars == <<case, phase, bad>>
 
-Failing(r) == {<<i, name>> \in (1..NVals(r.case)) \X ClauseNames : ~Clause(name, r, i)}
 Unexplained(r) == {p \in Failing(r) : Deviation(p[2], r.case, p[1]) = "none"}
 
 \* TLC caches LET definitions only while it evaluates an action (not in invariants / ASSUMEs), so the
